@@ -3,6 +3,7 @@ package checks
 import (
 	"bytes"
 	"fmt"
+	"reflect"
 	"sort"
 	"strings"
 	"time"
@@ -362,6 +363,70 @@ func c06Run(c *engine.Ctx) {
 			for _, form := range []string{"single-untagged", "map-second", "same-text-untagged+tagged"} {
 				for _, ch := range []string{"json-method", "gob"} {
 					oneText(p, form, ch, rc.S, rc.Name)
+				}
+			}
+		}
+	}
+	// every type that has a text property, every text property it has (name on all 14 structs incl. Link, summary and content on
+	// the 13 object-like ones, preferredUsername on Actor): single tokens and the texts that look like markup, character references
+	// or escapes to ANY layer (HTML, URL, JSON, Go), two forms, three channels. A type-specific loader or writer that treats one
+	// type's text differently from the shared one shows here.
+	{
+		texts := append([]string{}, c06Tokens...)
+		texts = append(texts, "Tom &amp; Jerry", "&lt;3", "&#128512;", "&#x27;", "&copy 2024", "&nbsp;", "a%20b", "%E2%82%AC", "100%", "\\u00e9", "\\n", "&quot;", "<p>x</p>", "</script>", "`x`", "${x}", "{{x}}", "\\x41", "a\u0301", "\u00e1", "\ufb01")
+		for i := range universe.Structs {
+			st := &universe.Structs[i]
+			for _, fname := range []string{"Name", "Summary", "Content", "PreferredUsername"} {
+				sf, ok := st.Type.FieldByName(fname)
+				if !ok || sf.Type != reflect.TypeOf(ap.NaturalLanguageValues{}) {
+					continue
+				}
+				if st.Name == "Object" || st.Name == "Actor" && fname == "PreferredUsername" {
+					continue // covered above with the full alphabet
+				}
+				for _, form := range []string{"single-untagged", "map-second"} {
+					for _, ch := range []string{"json-pkg", "json-method", "gob"} {
+						st, fname, form, ch := st, fname, form, ch
+						class := fmt.Sprintf("C06|%s|%s.%s|%s", ch, st.Name, strings.ToLower(fname[:1])+fname[1:], form)
+						c.Do(class, func() string {
+							return fmt.Sprintf("%s.%s = each of %d texts as %s through %s", st.Name, fname, len(texts), form, ch)
+						}, func(t *engine.T) {
+							t.Distinct(true)
+							for _, text := range texts {
+								n := ap.NaturalLanguageValues{{Ref: ap.NilLangRef, Value: ap.Content(text)}}
+								if form == "map-second" {
+									n = ap.NaturalLanguageValues{{Ref: "fr", Value: ap.Content("autre texte")}, {Ref: "en", Value: ap.Content(text)}}
+								}
+								host := reflect.New(st.Type)
+								host.Elem().FieldByName("ID").Set(reflect.ValueOf(ap.IRI("https://example.com/h")))
+								host.Elem().FieldByName("Type").Set(reflect.ValueOf(ap.ActivityVocabularyType(st.SpecificName())))
+								host.Elem().FieldByName(fname).Set(reflect.ValueOf(n))
+								back, js, err := c06RoundTrip(ch, host.Interface())
+								t.Ops(2)
+								key := func(sym string) string { return class + "|" + c06Class(text) + "|" + sym }
+								if err != nil || back == nil || universeType(back) != st.Type {
+									t.Fail(key("value-lost"), "round trip of %q gave %T, %v (json %q)", text, back, err, js)
+									continue
+								}
+								bv := reflect.ValueOf(back)
+								if bv.Kind() == reflect.Pointer {
+									bv = bv.Elem()
+								}
+								got := bv.FieldByName(fname).Interface().(ap.NaturalLanguageValues)
+								want := len(n)
+								found := false
+								for _, e := range got {
+									if (form == "single-untagged" || e.Ref == "en") && bytes.Equal(e.Value, []byte(text)) {
+										found = true
+									}
+								}
+								if len(got) != want || !found {
+									t.Fail(key("text-changed"), "%s.%s: %q came back as %q (json %q)", st.Name, fname, text, got, js)
+								}
+							}
+							t.AddEvals(int64(len(texts))-1, int64(len(texts))-1)
+						})
+					}
 				}
 			}
 		}
